@@ -182,6 +182,7 @@ func Play(r *rand.Rand, s *Scenario, o PlayOpts, rec *Recorder) (blocks []BlockR
 				bev, te := s.mkEvent(ep.Epoch, c.Cr, sp, others)
 				err, crit := guarded(func() error { return in.L.Build(te) })
 				if crit {
+					rec.Crit(err.Error())
 					return in.Blocks, true
 				}
 				if err == nil {
@@ -197,6 +198,7 @@ func Play(r *rand.Rand, s *Scenario, o PlayOpts, rec *Recorder) (blocks []BlockR
 				cp.SetParents(ev.E.Parents())
 				err, crit := guarded(func() error { return in.L.Build(cp) })
 				if crit {
+					rec.Crit(err.Error())
 					return in.Blocks, true
 				}
 				if err == nil {
@@ -216,6 +218,7 @@ func Play(r *rand.Rand, s *Scenario, o PlayOpts, rec *Recorder) (blocks []BlockR
 					te.SetLamport(ev.E.Lamport())
 					err, crit := guarded(func() error { return in.L.Build(te) })
 					if crit {
+						rec.Crit(err.Error())
 						return in.Blocks, true
 					}
 					if err == nil && (k < 2 || k == o.BuildHistory-1) {
@@ -230,6 +233,7 @@ func Play(r *rand.Rand, s *Scenario, o PlayOpts, rec *Recorder) (blocks []BlockR
 				cp.SetParents(ev.E.Parents())
 				err, crit := guarded(func() error { return in.L.Build(cp) })
 				if crit {
+					rec.Crit(err.Error())
 					return in.Blocks, true
 				}
 				if err == nil {
@@ -261,6 +265,7 @@ func Play(r *rand.Rand, s *Scenario, o PlayOpts, rec *Recorder) (blocks []BlockR
 				nb := len(in.Blocks)
 				err, crit := guarded(func() error { return in.L.Process(cl) })
 				if crit {
+					rec.Crit(err.Error())
 					return in.Blocks, true
 				}
 				rec.ProcessCloneLine(s, in, ev, cloneID, fr, err, in.Blocks[nb:])
@@ -271,6 +276,7 @@ func Play(r *rand.Rand, s *Scenario, o PlayOpts, rec *Recorder) (blocks []BlockR
 			nb := len(in.Blocks)
 			err, crit := guarded(func() error { return in.L.Process(ev.E) })
 			if crit {
+				rec.Crit(err.Error())
 				return in.Blocks, true
 			}
 			rec.ProcessLine(s, in, ev, err, in.Blocks[nb:])
